@@ -325,10 +325,10 @@ def run(ctx: RuleContext, p: Program) -> None:
     ctx.try_rule(rule_claim_order, p, 'CLAIM-ORDER')
     from .c04 import rule_take_ignored
     ctx.try_rule(rule_take_ignored, p, 'TAKE-IGNORED')
-    ctx.try_rule(rule_claim_walk, p, 'CLAIM-WALK')
     from . import round4
     ctx.try_rule(round4.rule_claim_descend, p, 'CLAIM-DESCEND')
     ctx.try_rule(round4.rule_claim_found, p, 'CLAIM-FOUND')
+    ctx.try_rule(round4.rule_find_sem, p, 'FIND-SEM', 3 if ctx.tier == 'quick' else 4)
     ctx.try_rule(round4.rule_claim_sem, p, 'CLAIM-SEM', 3 if ctx.tier == 'quick' else 4)
     ctx.try_rule(round4.rule_id_cmp, p, 'ID-CMP')
     from . import presence
